@@ -1,0 +1,108 @@
+//go:build verif
+
+package dastard
+
+// Hooks for the life-cycle (C10) and control-request (C11) checks of /verif: a scripted source whose
+// blocks travel through the real nextBlock channel (so the real Start / CoreLoop / Stop are used), and
+// read access to the RPC layer's active flag.
+
+import "time"
+
+// VerifLoopSource is a VerifSource with a real producer goroutine: blocks handed to VerifFeed are sent
+// on nextBlock; when abortSelf is closed the producer closes nextBlock (like the simulated sources).
+type VerifLoopSource struct {
+	VerifSource
+	feed chan *dataBlock
+}
+
+// NewVerifLoopSource creates a scripted source with nchan channels for use with the real Start.
+func NewVerifLoopSource(nchan int, sampleRate float64) *VerifLoopSource {
+	vs := new(VerifLoopSource)
+	vs.name = "VerifLoop"
+	vs.nchan = nchan
+	vs.sampleRate = sampleRate
+	vs.samplePeriod = time.Duration(roundint(1e9 / sampleRate))
+	vs.feed = make(chan *dataBlock)
+	return vs
+}
+
+// StartRun launches the producer.
+func (vs *VerifLoopSource) StartRun() error {
+	abort, next := vs.abortSelf, vs.nextBlock
+	go func() {
+		for {
+			select {
+			case <-abort:
+				verifPoint("prod.abortSeen")
+				close(next)
+				return
+			case b := <-vs.feed:
+				if b.err != nil {
+					verifPoint("prod.sendError")
+					next <- b
+					return
+				}
+				verifPoint("prod.tick")
+				verifPoint("prod.send")
+				next <- b
+			}
+		}
+	}()
+	return nil
+}
+
+// VerifFeed hands one block (one data slice per channel) to the producer; it returns false when the
+// producer did not take it within the timeout (source not running).  kind: 0 = data, 1 = error block.
+func (vs *VerifLoopSource) VerifFeed(firstFrame int64, data [][]RawType, dropped int, ext []int64, kind int,
+	timeout time.Duration) bool {
+	block := new(dataBlock)
+	if kind == 1 {
+		block.err = errVerifBlock
+	} else {
+		block.segments = make([]DataSegment, len(data))
+		for i, d := range data {
+			block.segments[i] = DataSegment{rawData: d, framesPerSample: 1, firstFrameIndex: FrameIndex(firstFrame),
+				firstTime: time.Now(), framePeriod: vs.samplePeriod, voltsPerArb: 1. / 65535.0, droppedFrames: dropped}
+		}
+		block.externalTriggerRowcounts = ext
+		if len(data) > 0 {
+			block.nSamp = len(data[0])
+		}
+	}
+	select {
+	case vs.feed <- block:
+		return true
+	case <-time.After(timeout):
+		return false
+	}
+}
+
+type verifBlockError struct{}
+
+func (verifBlockError) Error() string { return "scripted error block" }
+
+var errVerifBlock error = verifBlockError{}
+
+// VerifIsActive reads the RPC layer's active-source flag.
+func (s *SourceControl) VerifIsActive() bool { return s.isSourceActive }
+
+// VerifRefresh runs the RPC layer's check for a source that stopped by itself.
+func (s *SourceControl) VerifRefresh() { s.handlePossibleStoppedSource() }
+
+// VerifLoadMap installs a pixel map with npix pixels in the source control's map server (nil map when npix < 0).
+func (s *SourceControl) VerifLoadMap(npix int) {
+	if npix < 0 {
+		s.mapServer.Map = nil
+		return
+	}
+	m := new(Map)
+	m.Pixels = make([]Pixel, npix)
+	s.mapServer.Map = m
+}
+
+// VerifRunLater hands f to the real runLaterIfActive (flag test, rendezvous with the core loop, wait for
+// one result); f must call VerifReply exactly once.
+func (s *SourceControl) VerifRunLater(f func()) error { return s.runLaterIfActive(f) }
+
+// VerifReply sends a request closure's result to the waiting RPC caller.
+func (s *SourceControl) VerifReply(err error) { s.queuedResults <- err }
